@@ -510,3 +510,57 @@ pub fn gen_c18(o: &mut Out, tier: &str, seed: u64) {
     let mut k = vec![0u8; 16]; k[3] = 9;
     for how in ["decoded", "from", "cloned"] { o.op_exp(&format!("drop.aekey.{}", how), "wiped", &format!("drop aekey {} {}", how, hex(&k))); }
 }
+
+pub fn gen_c10(o: &mut Out, tier: &str, seed: u64) {
+    let mut r = Rng::new(seed, "c10");
+    let th = tier == "thorough";
+    // amounts at the structural boundaries of the search
+    let mut xs: Vec<u64> = vec![0, 1, 2, 31, 32, 33, 65534, 65535, 65536, 65537, 131071, 131072, (1 << 32) - 65536, (1 << 32) - 2, (1 << 32) - 1];
+    for k in [1u64, 2, 3, 255, 256, 32767, 32768, 65535] { for d in [0u64, 1, 65535] { xs.push(k * 65536 + d); } }
+    // per-thread range ends / batch ends in the low 16 bits
+    for lo in [999u64, 1000, 1001, 4095, 4096, 8191, 8192, 16383, 16384, 32767, 32768, 65000, 65199, 65200, 65504, 65534] { xs.push((r.below(65536) << 16) + lo); }
+    for _ in 0..(if th { 400 } else { 12 }) { xs.push(r.below(1 << 32)); }
+    let threads: Vec<&str> = if th { vec!["-", "1", "2", "4", "8", "16", "32", "64", "256", "1024"] } else { vec!["-", "1", "2", "8", "64"] };
+    let batches: Vec<&str> = if th { vec!["-", "1", "2", "31", "32", "33", "100", "1000", "2000", "4096", "65535"] } else { vec!["-", "33", "1000", "65535"] };
+    for x in xs.iter() {
+        let t = hp(&(Scalar::from(*x) * G));
+        let k = hs(&Scalar::from(*x));
+        for (i, thr) in threads.iter().enumerate() {
+            for (j, b) in batches.iter().enumerate() {
+                if !th && (i + j + (*x as usize)) % 3 != 0 && !(thr == &"-" && b == &"-") { continue; }
+                o.op_exp("in-range", &format!("some:{}", x), &format!("dlog {} {} {} {}", t, k, thr, b));
+            }
+        }
+    }
+    // out of range: 2^32, 2^32+1, 2^33, -1, random scalars, random points
+    let mut outs: Vec<Scalar> = vec![Scalar::from(1u64 << 32), Scalar::from((1u64 << 32) + 1), Scalar::from(1u64 << 33), Scalar::from(u64::MAX), -Scalar::ONE, -Scalar::from(65536u64)];
+    for _ in 0..(if th { 40 } else { 4 }) { outs.push(rand_scalar(&mut r)); }
+    for s in outs.iter() {
+        let t = hp(&(s * G));
+        for thr in threads.iter().take(3) { for b in batches.iter().take(3) {
+            o.op_exp("out-of-range", "none", &format!("dlog {} {} {} {}", t, hs(s), thr, b));
+        } }
+    }
+    // refused configurations
+    let t = hp(&(Scalar::from(7u64) * G));
+    let k = hs(&Scalar::from(7u64));
+    for thr in ["3", "5", "6", "7", "12", "100", "65535", "131072", "262144", "1048576", "4294967296"] {
+        o.op_exp("threads-refused", "err", &format!("dlog {} {} {} -", t, k, thr));
+    }
+    for b in ["65536", "65537", "131072", "4294967296"] {
+        o.op_exp("batch-refused", "err", &format!("dlog {} {} - {}", t, k, b));
+    }
+    // repeated threaded runs (every interleaving must give the same answer)
+    for _ in 0..(if th { 200 } else { 16 }) {
+        let x = r.below(1 << 32);
+        o.op_exp("repeat-threaded", &format!("some:{}", x), &format!("dlog {} {} 16 -", hp(&(Scalar::from(x) * G)), hs(&Scalar::from(x))));
+    }
+    if th {
+        // the model's own search (slow) and the table file
+        for x in [0u64, 65535, 65536, (1 << 32) - 1, r.below(1 << 32)] {
+            o.op("model-search", &format!("dlogsearch {} - -", hp(&(Scalar::from(x) * G))));
+        }
+        o.op("model-search", &format!("dlogsearch {} 4 1000", hp(&(Scalar::from(123_456_789u64) * G))));
+        o.op("model-search", &format!("dlogsearch {} - -", hp(&(Scalar::from(1u64 << 32) * G))));
+    }
+}
